@@ -6,6 +6,7 @@ package locks
 // calling conventions; after every call the locks are probed.
 
 import (
+	"bytes"
 	"context"
 	"fmt"
 	"io"
@@ -19,10 +20,12 @@ import (
 	"github.com/buildbarn/bb-remote-execution/pkg/filesystem/virtual"
 	virtual_nfsv4 "github.com/buildbarn/bb-remote-execution/pkg/filesystem/virtual/nfsv4"
 	"github.com/buildbarn/bb-remote-execution/pkg/proto/outputpathpersistency"
+	"github.com/buildbarn/bb-remote-execution/pkg/proto/tmp_installer"
 	"github.com/buildbarn/bb-storage/pkg/blobstore/buffer"
 	"github.com/buildbarn/bb-storage/pkg/blobstore/slicing"
 	"github.com/buildbarn/bb-storage/pkg/digest"
 	"github.com/buildbarn/bb-storage/pkg/filesystem"
+	"github.com/buildbarn/bb-storage/pkg/filesystem/path"
 	"github.com/buildbarn/go-xdr/pkg/protocols/nfsv4"
 	"google.golang.org/grpc/codes"
 	"google.golang.org/grpc/status"
@@ -95,9 +98,16 @@ func TestFileRandom(t *testing.T) {
 	for i := 0; i < traces && hangCount.Load() < maxHangs; i++ {
 		rng := common.Rand(int64(7000 + i))
 		e := newEnv(tr)
-		tr.Emit(common.Ev{"ev": "reset", "trace": i, "mode": "file"})
+		// Every third file is used without the handle allocating
+		// decorator: Link()/Unlink() of the pool-backed file itself.
+		raw := i%3 == 1
+		tr.Emit(common.Ev{"ev": "reset", "trace": i, "mode": "file", "raw": raw})
 		initial := []virtual.ShareMask{0, virtual.ShareMaskRead, virtual.ShareMaskWrite, virtual.ShareMaskRead | virtual.ShareMaskWrite}[rng.Intn(4)]
-		leaf, err := e.fileAllocator.NewFile(pool.ZeroHoleSource, rng.Intn(2) == 0, uint64(rng.Intn(40)), initial)
+		allocator := e.fileAllocator
+		if raw {
+			allocator = e.rawFileAllocator
+		}
+		leaf, err := allocator.NewFile(pool.ZeroHoleSource, rng.Intn(2) == 0, uint64(rng.Intn(40)), initial)
 		mustErr(err, "new file")
 		e.addLeaf(leaf)
 		m := &fileModel{links: 1}
@@ -117,10 +127,11 @@ func TestFileRandom(t *testing.T) {
 			mutable := alive && len(m.frozen) == 0
 			writers := m.writeO + m.rwO
 			var o *op
-			pick := rng.Intn(24)
+			pick := rng.Intn(27)
 			fault := rng.Intn(4) == 0
-			variant := fmt.Sprintf("alive=%v;writers=%v;frozen=%v", alive, writers > 0, len(m.frozen) > 0)
+			variant := fmt.Sprintf("alive=%v;writers=%v;frozen=%v;raw=%v", alive, writers > 0, len(m.frozen) > 0, raw)
 			mk := func(call, v string, f func() string) { o = &op{call, v + ";" + variant, f} }
+			parked, parkedOK := false, true
 			switch pick {
 			case 0:
 				mask := []virtual.AttributesMask{maskLocked, maskUnlocked}[rng.Intn(2)]
@@ -283,9 +294,10 @@ func TestFileRandom(t *testing.T) {
 							return "ok"
 						})
 					case 2:
+						rt := []filesystem.RegionType{filesystem.Data, filesystem.Hole}[rng.Intn(2)]
 						mk("FrozenFile.GetNextRegionOffset", "", func() string {
 							e.faults.seek.Store(fault)
-							_, err := r.GetNextRegionOffset(0, filesystem.Data)
+							_, err := r.GetNextRegionOffset(0, rt)
 							if err != nil {
 								return "error"
 							}
@@ -310,6 +322,124 @@ func TestFileRandom(t *testing.T) {
 						return st(s)
 					})
 				}
+			case 24, 25:
+				// A call that changes the data while frozen readers
+				// exist waits until the last of them is closed. It must
+				// not keep the readers from being closed, and must
+				// return afterwards.
+				kind := rng.Intn(4)
+				if len(m.frozen) == 0 || (kind == 0 && m.links+m.readO+m.writeO+m.rwO == 0) {
+					break
+				}
+				off, size := uint64(rng.Intn(50)), uint64(rng.Intn(60))
+				share := []virtual.ShareMask{virtual.ShareMaskRead, virtual.ShareMaskWrite, virtual.ShareMaskRead | virtual.ShareMaskWrite}[rng.Intn(3)]
+				call := []string{"VirtualWrite", "VirtualSetAttributes", "VirtualAllocate", "VirtualOpenSelf"}[kind]
+				v := []string{"", "size", "", "truncate=true"}[kind] + ";" + variant + ";waits-for-frozen-readers"
+				readers := append([]filesystem.FileReader(nil), m.frozen...)
+				f := func() string {
+					switch kind {
+					case 0:
+						e.faults.write.Store(fault)
+						_, s := leaf.VirtualWrite(ctxBG, []byte("written while frozen"), off)
+						return st(s)
+					case 1:
+						e.faults.truncate.Store(fault)
+						var out virtual.Attributes
+						return st(leaf.VirtualSetAttributes(ctxBG, (&virtual.Attributes{}).SetSizeBytes(size), maskLocked, &out))
+					case 2:
+						e.faults.truncate.Store(fault)
+						return st(leaf.VirtualAllocate(ctxBG, off, size))
+					}
+					e.faults.truncate.Store(fault)
+					var out virtual.Attributes
+					return st(leaf.VirtualOpenSelf(ctxBG, share, &virtual.OpenExistingOptions{Truncate: true}, maskLocked, &out))
+				}
+				post := func(outcome string) {
+					if kind == 3 && outcome == "OK" {
+						open(share, 1)
+					}
+				}
+				calls++
+				parkedOK = e.recordParked("file", call, v, f, post, func() []waker {
+					var ws []waker
+					for k := len(readers) - 1; k >= 0; k-- {
+						r := readers[k]
+						ws = append(ws, waker{"FrozenFile.Close", "", func() string { return grpcClass(r.Close()) },
+							func(string) { m.frozen = m.frozen[:len(m.frozen)-1] }})
+					}
+					return ws
+				})
+				parked = true
+			case 26:
+				// Opening the file frozen (for uploading it) waits until
+				// the writers have closed it, or for the delay to expire.
+				// It must not keep the writers from closing the file.
+				if !alive || writers == 0 {
+					break
+				}
+				delay := make(chan struct{})
+				upload := rng.Intn(2) == 0
+				failPut := rng.Intn(3) == 0
+				fireDelay := rng.Intn(2) == 0
+				var reader filesystem.FileReader
+				call := "VirtualApply:OpenReadFrozen"
+				if upload {
+					call = "VirtualApply:UploadFile"
+				}
+				f := func() string {
+					if upload {
+						e.faults.read.Store(fault)
+						p := &virtual.ApplyUploadFile{Context: ctxBG, ContentAddressableStorage: &fakeCAS{fail: failPut}, DigestFunction: digestFunction, WritableFileUploadDelay: delay}
+						leaf.VirtualApply(p)
+						return grpcClass(p.Err)
+					}
+					p := &virtual.ApplyOpenReadFrozen{WritableFileDelay: delay}
+					leaf.VirtualApply(p)
+					if p.Err == nil {
+						reader = p.Reader
+					}
+					return grpcClass(p.Err)
+				}
+				post := func(outcome string) {
+					if reader != nil {
+						m.frozen = append(m.frozen, reader)
+					}
+				}
+				nW, nRW := m.writeO, m.rwO
+				calls++
+				parkedOK = e.recordParked("file", call, fmt.Sprintf("put-fails=%v;delay-expires=%v;%s;waits-for-writers", failPut, fireDelay, variant), f, post, func() []waker {
+					var ws []waker
+					closer := func(share virtual.ShareMask) waker {
+						return waker{"VirtualClose", "", func() string { leaf.VirtualClose(share); return "ok" },
+							func(string) {
+								open(share, -1)
+								if fireDelay {
+									select {
+									case <-delay:
+									default:
+										close(delay)
+									}
+								}
+							}}
+					}
+					for k := 0; k < nW; k++ {
+						ws = append(ws, closer(virtual.ShareMaskWrite))
+					}
+					for k := 0; k < nRW; k++ {
+						ws = append(ws, closer(virtual.ShareMaskRead|virtual.ShareMaskWrite))
+					}
+					if fireDelay {
+						ws = ws[:1]
+					}
+					return ws
+				})
+				parked = true
+			}
+			if parked {
+				if !parkedOK {
+					break
+				}
+				continue
 			}
 			if o == nil {
 				continue
@@ -383,7 +513,9 @@ func TestOpenedFilesPoolRandom(t *testing.T) {
 			return out
 		}
 		randRange := func() (uint64, uint64, string) {
-			switch rng.Intn(8) {
+			switch rng.Intn(9) {
+			case 8:
+				return math.MaxUint64, math.MaxUint64, "last-byte-to-eof"
 			case 0:
 				return uint64(rng.Intn(10)), 0, "zero-length"
 			case 1:
@@ -674,6 +806,317 @@ func TestSectorAllocatorRandom(t *testing.T) {
 			}
 			calls++
 			if !ok {
+				break
+			}
+		}
+	}
+	common.WriteJSON("meta.json", map[string]any{"traces": traces, "calls": calls})
+}
+
+// ---------------------------------------------------------------------------
+// UserSettableSymlink. Its mutex has no TryLock hook: it is probed by the
+// next call that needs it (VirtualGetAttributes of the change ID), which
+// must return.
+
+func TestUserSettableSymlinkRandom(t *testing.T) {
+	traces := common.EnvInt("VERIF_N", 30)
+	steps := common.EnvInt("VERIF_STEPS", 30)
+	tr := common.NewTrace("trace.ndjson")
+	defer tr.Close()
+	calls := 0
+	for i := 0; i < traces && hangCount.Load() < maxHangs; i++ {
+		rng := common.Rand(int64(15000 + i))
+		tr.Emit(common.Ev{"ev": "reset", "trace": i, "mode": "usymlink"})
+		buildDirectory, scopeWalker := path.EmptyBuilder.Join(path.VoidScopeWalker)
+		mustErr(path.Resolve(path.UNIXFormat.NewParser("/worker/build"), scopeWalker), "build directory")
+		sl := virtual.NewUserSettableSymlink(buildDirectory, path.UNIXFormat.NewParser("/invalid"))
+		noProbe := func() []string { return []string{} }
+		for j := 0; j < steps; j++ {
+			var call, variant string
+			var f func() string
+			switch rng.Intn(4) {
+			case 0:
+				dir := []string{"tmp/a", "b", "../escape", "/absolute", "a/../b", ""}[rng.Intn(6)]
+				call, variant = "InstallTemporaryDirectory", "dir="+dir
+				f = func() string {
+					_, err := sl.InstallTemporaryDirectory(ctxBG, &tmp_installer.InstallTemporaryDirectoryRequest{TemporaryDirectory: dir})
+					return grpcClass(err)
+				}
+			case 1, 2:
+				mask := []virtual.AttributesMask{
+					virtual.AttributesMaskFileType,
+					virtual.AttributesMaskChangeID,
+					virtual.AttributesMaskSymlinkTarget,
+					virtual.AttributesMaskChangeID | virtual.AttributesMaskSymlinkTarget | virtual.AttributesMaskPermissions,
+				}[rng.Intn(4)]
+				call, variant = "VirtualGetAttributes", fmt.Sprintf("mask=%d", mask)
+				f = func() string {
+					var out virtual.Attributes
+					sl.VirtualGetAttributes(ctxBG, mask, &out)
+					return "ok"
+				}
+			default:
+				kind := rng.Intn(4)
+				call, variant = "VirtualSetAttributes", []string{"none", "size", "uid", "gid"}[kind]
+				f = func() string {
+					in := &virtual.Attributes{}
+					switch kind {
+					case 1:
+						in.SetSizeBytes(1)
+					case 2:
+						in.SetOwnerUserID(1)
+					case 3:
+						in.SetOwnerGroupID(1)
+					}
+					var out virtual.Attributes
+					return st(sl.VirtualSetAttributes(ctxBG, in, virtual.AttributesMaskChangeID|virtual.AttributesMaskSymlinkTarget, &out))
+				}
+			}
+			calls++
+			if !recordWith(tr, noProbe, "usymlink", call, variant, f) {
+				break
+			}
+			// The probe: a later call that takes the lock must return.
+			if !recordWith(tr, noProbe, "usymlink", "VirtualGetAttributes", "probe;after="+call, func() string {
+				var out virtual.Attributes
+				sl.VirtualGetAttributes(ctxBG, virtual.AttributesMaskChangeID, &out)
+				return "ok"
+			}) {
+				break
+			}
+		}
+	}
+	common.WriteJSON("meta.json", map[string]any{"traces": traces, "calls": calls})
+}
+
+// ---------------------------------------------------------------------------
+// The allocation API of the handle allocators (NFS: every conversion
+// takes the lock of the handle pool; FUSE: lock free except for removal
+// notification), and the calls of the decorators they return.
+
+func TestHandleAllocatorRandom(t *testing.T) {
+	traces := common.EnvInt("VERIF_N", 30)
+	steps := common.EnvInt("VERIF_STEPS", 60)
+	tr := common.NewTrace("trace.ndjson")
+	defer tr.Close()
+	calls := 0
+	for i := 0; i < traces && hangCount.Load() < maxHangs; i++ {
+		rng := common.Rand(int64(19000 + i))
+		fuse := i%2 == 1
+		e := newEnvWith(tr, envOptions{fuse: fuse})
+		tr.Emit(common.Ev{"ev": "reset", "trace": i, "mode": "handle", "fuse": fuse})
+		resolver := func(r io.ByteReader) (virtual.DirectoryChild, virtual.Status) {
+			return virtual.DirectoryChild{}.FromLeaf(plainLeaf{}), virtual.StatusOK
+		}
+		staticDir := func() virtual.Directory {
+			return virtual.NewStaticDirectory(virtual.CaseSensitiveComponentNormalizer, map[path.Component]virtual.DirectoryChild{})
+		}
+		var stateless []virtual.StatelessHandleAllocator
+		var resolvable []virtual.ResolvableHandleAllocator
+		var dirHandles []virtual.StatefulDirectoryHandle
+		var linkable []virtual.LinkableLeaf // with a link count > 0 as far as the driver knows
+		links := map[virtual.LinkableLeaf]int{}
+		var nodes []virtual.Node
+		id := func() handleIdentifier { return handleIdentifier(fmt.Sprintf("id%d", rng.Intn(4))) }
+		for j := 0; j < steps; j++ {
+			var call, variant string
+			var f func() string
+			switch k := rng.Intn(16); {
+			case k == 0:
+				call, variant = "Allocation.AsStatelessAllocator", "stateful"
+				f = func() string {
+					stateless = append(stateless, e.handleAllocator.New().AsStatelessAllocator())
+					return "ok"
+				}
+			case k == 1:
+				call, variant = "Allocation.AsResolvableAllocator", "stateful"
+				f = func() string {
+					resolvable = append(resolvable, e.handleAllocator.New().AsResolvableAllocator(resolver))
+					return "ok"
+				}
+			case k == 2:
+				call, variant = "Allocation.AsStatefulDirectory", "stateful"
+				f = func() string {
+					dirHandles = append(dirHandles, e.handleAllocator.New().AsStatefulDirectory(staticDir()))
+					return "ok"
+				}
+			case k == 3:
+				call, variant = "Allocation.AsStatelessDirectory", "stateful"
+				f = func() string {
+					nodes = append(nodes, e.handleAllocator.New().AsStatelessDirectory(staticDir()))
+					return "ok"
+				}
+			case k == 4:
+				call, variant = "Allocation.AsLinkableLeaf", "stateful"
+				f = func() string {
+					l := e.handleAllocator.New().AsLinkableLeaf(virtual.NewSpecialFile(filesystem.FileTypeFIFO, nil))
+					linkable = append(linkable, l)
+					links[l] = 1
+					nodes = append(nodes, l)
+					return "ok"
+				}
+			case k == 5 && len(stateless) > 0:
+				a := stateless[rng.Intn(len(stateless))]
+				switch rng.Intn(5) {
+				case 0:
+					call, variant = "Allocation.AsStatelessAllocator", "stateless"
+					f = func() string { stateless = append(stateless, a.New(id()).AsStatelessAllocator()); return "ok" }
+				case 1:
+					call, variant = "Allocation.AsResolvableAllocator", "stateless"
+					f = func() string {
+						resolvable = append(resolvable, a.New(id()).AsResolvableAllocator(resolver))
+						return "ok"
+					}
+				case 2:
+					call, variant = "Allocation.AsStatelessDirectory", "stateless"
+					f = func() string { nodes = append(nodes, a.New(id()).AsStatelessDirectory(staticDir())); return "ok" }
+				case 3:
+					// The same identifier twice yields the same leaf
+					// with one more link.
+					call, variant = "Allocation.AsLinkableLeaf", "stateless"
+					f = func() string {
+						l := a.New(id()).AsLinkableLeaf(virtual.NewSpecialFile(filesystem.FileTypeFIFO, nil))
+						if links[l] == 0 {
+							linkable = append(linkable, l)
+						}
+						links[l]++
+						nodes = append(nodes, l)
+						return "ok"
+					}
+				default:
+					// (AsLeaf() is not part of the calling conventions of
+					// stateless allocations: plain leaves cannot be linked)
+				}
+			case k == 6 && len(resolvable) > 0:
+				a := resolvable[rng.Intn(len(resolvable))]
+				switch rng.Intn(4) {
+				case 0:
+					call, variant = "Allocation.AsResolvableAllocator", "resolvable"
+					f = func() string {
+						resolvable = append(resolvable, a.New(id()).AsResolvableAllocator(resolver))
+						return "ok"
+					}
+				case 1:
+					call, variant = "Allocation.AsStatelessDirectory", "resolvable"
+					f = func() string { nodes = append(nodes, a.New(id()).AsStatelessDirectory(staticDir())); return "ok" }
+				case 2:
+					call, variant = "Allocation.AsLinkableLeaf", "resolvable"
+					f = func() string {
+						nodes = append(nodes, a.New(id()).AsLinkableLeaf(virtual.NewSpecialFile(filesystem.FileTypeFIFO, nil)))
+						return "ok"
+					}
+				default:
+					call, variant = "Allocation.AsLeaf", "resolvable"
+					f = func() string { nodes = append(nodes, a.New(id()).AsLeaf(plainLeaf{})); return "ok" }
+				}
+			case k == 7 && len(dirHandles) > 0:
+				x := rng.Intn(len(dirHandles))
+				h := dirHandles[x]
+				switch rng.Intn(3) {
+				case 0:
+					dirHandles = append(dirHandles[:x], dirHandles[x+1:]...)
+					call = "DirectoryHandle.Release"
+					f = func() string { h.Release(); return "ok" }
+				case 1:
+					call = "DirectoryHandle.NotifyRemoval"
+					f = func() string { h.NotifyRemoval(comp("x")); return "ok" }
+				default:
+					call = "DirectoryHandle.GetAttributes"
+					f = func() string {
+						var out virtual.Attributes
+						h.GetAttributes(virtual.AttributesMaskFileHandle|virtual.AttributesMaskInodeNumber, &out)
+						return "ok"
+					}
+				}
+			case (k == 8 || k == 9) && len(linkable) > 0:
+				x := rng.Intn(len(linkable))
+				l := linkable[x]
+				if rng.Intn(2) == 0 {
+					call = "LinkableLeaf.Link"
+					f = func() string {
+						s := l.Link()
+						if s == virtual.StatusOK {
+							links[l]++
+						}
+						return st(s)
+					}
+				} else {
+					call = "LinkableLeaf.Unlink"
+					f = func() string {
+						l.Unlink()
+						links[l]--
+						if links[l] == 0 {
+							linkable = append(linkable[:x], linkable[x+1:]...)
+							return "last"
+						}
+						return "not-last"
+					}
+				}
+			case k == 10 && len(nodes) > 0:
+				// Link() of a leaf that may have been unlinked already.
+				if l, ok := nodes[rng.Intn(len(nodes))].(virtual.LinkableLeaf); ok {
+					call, variant = "LinkableLeaf.Link", "any"
+					f = func() string {
+						s := l.Link()
+						if s == virtual.StatusOK {
+							if links[l] == 0 {
+								linkable = append(linkable, l)
+							}
+							links[l]++
+						}
+						return st(s)
+					}
+				}
+			case k >= 11 && k <= 13 && len(nodes) > 0:
+				n := nodes[rng.Intn(len(nodes))]
+				mask := []virtual.AttributesMask{maskLocked, maskUnlocked, maskLocked | maskUnlocked}[rng.Intn(3)]
+				switch rng.Intn(3) {
+				case 0:
+					call, variant = "Node.VirtualGetAttributes", fmt.Sprintf("%T", n)
+					f = func() string {
+						var out virtual.Attributes
+						n.VirtualGetAttributes(ctxBG, mask, &out)
+						return "ok"
+					}
+				case 1:
+					call, variant = "Node.VirtualSetAttributes", fmt.Sprintf("%T", n)
+					f = func() string {
+						var out virtual.Attributes
+						n.VirtualSetAttributes(ctxBG, &virtual.Attributes{}, mask, &out)
+						return "ok"
+					}
+				default:
+					if l, ok := n.(virtual.Leaf); ok {
+						call, variant = "Node.VirtualOpenSelf", fmt.Sprintf("%T", n)
+						f = func() string {
+							var out virtual.Attributes
+							if s := l.VirtualOpenSelf(ctxBG, virtual.ShareMaskRead, &virtual.OpenExistingOptions{}, mask, &out); s == virtual.StatusOK {
+								l.VirtualClose(virtual.ShareMaskRead)
+							}
+							return "ok"
+						}
+					}
+				}
+			case k == 14 && !fuse:
+				var h []byte
+				if len(nodes) > 0 && rng.Intn(3) > 0 {
+					n := nodes[rng.Intn(len(nodes))]
+					h = fileHandleOf(func(m virtual.AttributesMask, out *virtual.Attributes) { n.VirtualGetAttributes(ctxBG, m, out) })
+				} else {
+					h = []byte{9, 9, 9, 9, 9, 9, 9, 9}[:rng.Intn(9)]
+				}
+				call = "ResolveHandle"
+				f = func() string {
+					_, s := e.nfsAllocator.ResolveHandle(bytes.NewReader(h))
+					return st(s)
+				}
+			}
+			if f == nil {
+				continue
+			}
+			calls++
+			obj := "handle"
+			if !e.record(obj, call, variant, f) {
 				break
 			}
 		}
